@@ -409,6 +409,26 @@ def scVaread (d : DCfg) (b : Bytes) : String :=
     | .error e => failS e
   s!"rd={rd} sk={sk} live=0"
 
+def scOarr (d : DCfg) : Tk String := do
+  let o ← parseObj
+  match o with
+  | .error e => pure s!"obj={stI e}"
+  | .ok o =>
+    let pass := fun (u : Bool) =>
+      let tag := if u then "u" else "a"
+      let w := emitAll (if u then writeObj d.cfg o else writeObjArr d.cfg o)
+      if w.1 ≠ .ok then s!"w{tag}={stI w.1}" else
+      let data := (w.2 ++ [0xde, 0xad, 0xbe, 0xef]).toArray
+      let rd := match (if u then readObj d.cfg o.tid else readObjArr d.cfg o.tid) data 0 with
+        | .ok (v, p) => s!"0@{p}:" ++ dumpObj d v ++ s!":eq={if objEq o v then 1 else 0}"
+        | .error e => failS e
+      let sk := match (if u then skipObj d.cfg o.tid else skipObjArr d.cfg o.tid) data 0 with
+        | .ok (_, p) => s!"0@{p}"
+        | .error e => failS e
+      s!"w{tag}=0:{hexq d w.2} r{tag}={rd} s{tag}={sk}"
+    let one := if o.count = 1 then s!" one=0:{dumpObj d o}:eq=1" else ""
+    pure (pass false ++ " " ++ pass true ++ one ++ " live=0")
+
 def scFsk (d : DCfg) (b : Bytes) : String :=
   let arr := b.toArray
   match fhRead arr 0 with
@@ -605,6 +625,15 @@ def scCs (d : DCfg) : Tk String := do
       | none => out := out ++ s!" g{i}={stI .propNotFound}"
     let w := emitAll (writeCS d.cfg cs)
     out := out ++ s!" w={stI w.1}:{hexq d w.2}"
+    if w.1 = .ok then
+      let data := w.2.toArray
+      let csr := match readCS d.cfg data 0 with
+        | .ok (x, p) => s!"0@{p}:{x.values.rowCnt}:{x.props.length}" ++ String.join (x.props.map (fun _ => ",0"))
+        | .error e => failS e
+      let css := match skipCS d.cfg data 0 with
+        | .ok (_, p) => s!"0@{p}"
+        | .error e => failS e
+      out := out ++ s!" csr={csr} css={css}"
     out := out ++ s!" ts=0:{m}:1"
     let tw := emitAll (writeTS d.cfg ⟨List.replicate m (some cs)⟩)
     out := out ++ s!" tsw={stI tw.1}:{hexq d tw.2}"
@@ -659,6 +688,7 @@ partial def scenario (d : DCfg) : Tk String := do
   else if kind == "errstr" then do let c ← nxI; pure (errStrModel c)
   else if kind == "va" then scVa d
   else if kind == "varead" then do let b ← nxB; pure (scVaread d b)
+  else if kind == "oarr" then scOarr d
   else if kind == "fsk" then do let b ← nxB; pure (scFsk d b)
   else if kind == "oskip" then do let t ← nxN; let b ← nxB; pure (scOskip d t b)
   else if kind == "md" then scMd d
